@@ -86,6 +86,8 @@ def main(argv):
     if tier not in ('quick', 'thorough'):
         tier = os.environ.get('VERIF_TIER', 'quick')
     ctx = Ctx(prop, tier, seed)
+    for old in REPLAYS.glob(f'{prop}-{tier}-{seed}-*.json'):
+        old.unlink()       # replays of an earlier run with the same (property, tier, seed) are stale
     obligations = 0
     discharged = 0
     theorems = []
